@@ -1,4 +1,5 @@
 import LfsModel.Pointer
+import LfsModel.Gen
 /-
 C05 (and C03/C04's recent fetches) — the parser of `git log -p` output, lfs/gitscanner_log.go:
 logScanner.scan.  Lines are classified by four regular expressions (`classify`, hand-written
@@ -11,7 +12,7 @@ inductive Kind where
   | commit                         -- lfs-commit-sha: <sha> <parents…>
   | file (a b : Bytes)             -- diff --git a/<a> b/<b>
   | merge (f : Bytes)              -- diff --cc <f>
-  | data (sign : UInt8) (text : Bytes)   -- [+- ](version https://git-lfs|oid sha256|size|ext-)…; text = line without the sign
+  | data (sign : UInt8) (text : Bytes)   -- [+- ](one of Gen.logDataPrefixes)…; text = line without the sign
   | other
   deriving Repr, DecidableEq
 
@@ -23,11 +24,11 @@ def isPrefix : Bytes → Bytes → Bool
 def isHex (c : UInt8) : Bool := (48 ≤ c && c ≤ 57) || (97 ≤ c && c ≤ 102)
 def isSpaceRe (c : UInt8) : Bool := c == 9 || c == 10 || c == 12 || c == 13 || c == 32   -- Go regexp \s
 
-def sCommit : Bytes := "lfs-commit-sha: ".toUTF8.toList
-def sDiffGit : Bytes := "diff --git ".toUTF8.toList
-def sDiffCc : Bytes := "diff --cc ".toUTF8.toList
-def dataPrefixes : List Bytes :=
-  ["version https://git-lfs".toUTF8.toList, "oid sha256".toUTF8.toList, "size".toUTF8.toList, "ext-".toUTF8.toList]
+def sCommit : Bytes := [108, 102, 115, 45, 99, 111, 109, 109, 105, 116, 45, 115, 104, 97, 58, 32]   -- "lfs-commit-sha: " (spelt as bytes: `decide` does not reduce String.toUTF8)
+def sDiffGit : Bytes := [100, 105, 102, 102, 32, 45, 45, 103, 105, 116, 32]   -- "diff --git " (spelt as bytes: `decide` does not reduce String.toUTF8)
+def sDiffCc : Bytes := [100, 105, 102, 102, 32, 45, 45, 99, 99, 32]   -- "diff --cc " (spelt as bytes: `decide` does not reduce String.toUTF8)
+/-- the literal alternatives of `pointerDataRegex`, regenerated from lfs/gitscanner_log.go on every run -/
+def dataPrefixes : List Bytes := Gen.logDataPrefixes
 
 /-- `(.+?)\s+"?b\/(.+)` on the text after `a/`: the leftmost-lazy split -/
 def splitAB : Bytes → Bytes → Option (Bytes × Bytes)
